@@ -50,6 +50,12 @@ Definition renew (p : policy) (h : hdr) (ts : Z) : hdr :=
 Definition set_expire (h : hdr) (when : Z) : option hdr :=
   if when >=? max_u32 - 1 then None else Some (mkH (when mod (max_u32 + 1)) (h_ver h)).
 
+(* expireWhen: the absolute expiry second for a duration given at ts; int64 overflow is refused, a second that is not
+   after the epoch becomes second 1 (expired at once; 0 would mean "no expiry") *)
+Definition expire_when (ts d : Z) : option Z :=
+  if (d >? 0) && (sec ts >? 9223372036854775807 - d) then None
+  else Some (if sec ts + d <=? 0 then 1 else sec ts + d).
+
 Definition in_int64 (z : Z) : bool := (-9223372036854775808 <=? z) && (z <=? 9223372036854775807).
 
 (* ---------- store ---------- *)
@@ -204,13 +210,19 @@ Definition kv_reset (p : policy) (s : store) (ts : Z) (k v : bytes) (ttl : Z) : 
   match p with
   | Compact =>
       if ttl <=? 0 then Some (kv_put s k fresh_hdr v)
-      else match set_expire fresh_hdr (ttl + sec ts) with
+      else match expire_when ts ttl with
            | None => None
-           | Some h => Some (kv_put s k h v)
+           | Some w => match set_expire fresh_hdr w with
+                       | None => None
+                       | Some h => Some (kv_put s k h v)
+                       end
            end
   | Local =>
       if ttl <=? 0 then Some (kv_put s k fresh_hdr v)
-      else Some (kv_put (tidx_add s (ttl + sec ts) TK k) k fresh_hdr v)
+      else match expire_when ts ttl with
+           | None => None
+           | Some w => Some (kv_put (tidx_add s w TK k) k fresh_hdr v)
+           end
   end.
 
 (* the value a read-modify-write builds on: absent when not stored or expired *)
@@ -343,42 +355,50 @@ Definition list_meta_of (ud : option (Z * Z)) : Z * Z * Z :=       (* head, tail
   match ud with None => (list_initial_seq, list_initial_seq, 0) | Some (a, b) => (a, b, b - a + 1) end.
 
 (* collExpire / collPersist (+ ExpireAt of the policy) *)
-Definition coll_set_expire (p : policy) (s : store) (ts : Z) (t : ty) (k : bytes) (when : Z) : store * reply :=
+Definition coll_set_expire (p : policy) (s : store) (ts : Z) (t : ty) (k : bytes) (ow : option Z) : store * reply :=
   match coll_header p s ts t k with
   | (h, ud, ex) =>
       match ud with
       | None => (s, RInt 0)
       | Some (a, b) =>
           if ex then (s, RInt 0) else
-          match p with
-          | Compact => match set_expire h when with
-                       | None => (s, RErr)
-                       | Some h' => (meta_put s t k (mkM h' a b), RInt 1)
-                       end
-          | Local => if when =? 0 then (s, RErr) else (tidx_add s when t k, RInt 1)
+          match ow with
+          | None => (s, RErr)
+          | Some when =>
+              match p with
+              | Compact => match set_expire h when with
+                           | None => (s, RErr)
+                           | Some h' => (meta_put s t k (mkM h' a b), RInt 1)
+                           end
+              | Local => if when =? 0 then (s, RErr) else (tidx_add s when t k, RInt 1)
+              end
           end
       end
   end.
-Definition kv_set_expire (p : policy) (s : store) (ts : Z) (k : bytes) (when : Z) : store * reply :=
+Definition kv_set_expire (p : policy) (s : store) (ts : Z) (k : bytes) (ow : option Z) : store * reply :=
   match kv_raw p s ts k with
   | (h, ov, ex) =>
       match ov with
       | None => (s, RInt 0)
       | Some v =>
           if ex then (s, RInt 0) else
-          match p with
-          | Compact => match set_expire h when with
-                       | None => (s, RErr)
-                       | Some h' => (kv_put s k h' v, RInt 1)
-                       end
-          | Local => if when =? 0 then (s, RErr) else (tidx_add s when TK k, RInt 1)
+          match ow with
+          | None => (s, RErr)
+          | Some when =>
+              match p with
+              | Compact => match set_expire h when with
+                           | None => (s, RErr)
+                           | Some h' => (kv_put s k h' v, RInt 1)
+                           end
+              | Local => if when =? 0 then (s, RErr) else (tidx_add s when TK k, RInt 1)
+              end
           end
       end
   end.
 Definition do_expire p s ts (t : ty) k dur : store * reply :=
-  match t with TK => kv_set_expire p s ts k (sec ts + dur) | _ => coll_set_expire p s ts t k (dur + sec ts) end.
+  match t with TK => kv_set_expire p s ts k (expire_when ts dur) | _ => coll_set_expire p s ts t k (expire_when ts dur) end.
 Definition do_persist p s ts (t : ty) k : store * reply :=
-  match t with TK => kv_set_expire p s ts k 0 | _ => coll_set_expire p s ts t k 0 end.
+  match t with TK => kv_set_expire p s ts k (Some 0) | _ => coll_set_expire p s ts t k (Some 0) end.
 
 (* clear commands (HClear/hDeleteAll, sDelete, zRemAll, lDelete): under wait_compact only the meta is deleted;
    under local deletion the elements too. Nothing happens on a collection that does not exist or is expired. *)
